@@ -708,7 +708,7 @@ def check_c17(tier, seed):
 
 def check_c18(tier, seed):
     t0 = time.time()
-    cfgs, skipped = available_configs(["sse2-rel", "sse2-dbg", "scalar", "coresimd"] + (["native"] if tier == "thorough" else []))
+    cfgs, skipped = available_configs(["sse2-rel", "sse2-dbg", "scalar", "coresimd", "native"])
     build_all(cfgs)
     rounds = 2 if tier == "quick" else 24
     samples = 512 if tier == "quick" else 20000
@@ -724,7 +724,7 @@ def check_c18(tier, seed):
             results_m.append((c, run_sim(c, ["c18m", "--seed", seed, "--rounds", rounds])))
         except CrashFound as e:
             crash_viols.append(crash_violation(e, seed, "Guarded"))
-        results_p.append((c, run_sim(c, ["c18p", "--seed", seed, "--samples", samples if c != "sse2-dbg" else max(8, samples // 8), "--workers", NCPU])))
+        results_p.append((c, run_sim(c, ["c18p", "--seed", seed, "--samples", samples if c != "sse2-dbg" else max(8, samples // 2), "--workers", NCPU])))
         results_i.append((c, run_sim(c, ["c18i", "--seed", seed, "--samples", 300 if tier == "quick" else 20000, "--workers", NCPU])))
     viols, fired, effective, probes = list(crash_viols), {}, {}, {}
     evals = collect(results_m, viols, fired, effective, probes)
